@@ -20,6 +20,7 @@ import (
 	"math/rand"
 	"strconv"
 	"strings"
+	"sync"
 
 	"github.com/icon-project/goloop/common"
 	"github.com/icon-project/goloop/common/codec"
@@ -33,6 +34,26 @@ import (
 
 const txPerCase = 20
 
+// the last concCases(tier) case indices are the concurrency phase
+func seqCases(t string) int {
+	if t == ev.Thorough {
+		return 32000
+	}
+	return 480
+}
+
+func concCases(t string) int {
+	if t == ev.Thorough {
+		return 128
+	}
+	return 16
+}
+
+const (
+	concGoroutines = 16
+	concTxPerG     = 6
+)
+
 // knownLeadingEmpty is the ONE key of one specific defect: goloop's list
 // serializer writes the "." separator only when its buffer is not empty, so
 // list elements that serialize to the empty string vanish while they lead the
@@ -45,26 +66,21 @@ func init() {
 	ev.Register(&ev.Prop{
 		ID:    "C12",
 		Level: "exploration",
-		Cases: func(t string) int {
-			if t == ev.Thorough {
-				return 32000
-			}
-			return 480
-		},
+		Cases: func(t string) int { return seqCases(t) + concCases(t) },
 		Batches: func(t string) int {
 			if t == ev.Thorough {
 				return 32
 			}
 			return 16
 		},
-		Rule: fmt.Sprintf("each case = %d generated v3 transactions (all optional-field subsets; dataType absent/message/call/deploy/deposit/free-form; nested data with the escaped characters \\ { } [ ] . , control and non-ASCII characters, nulls, empty containers; class 0 canonical literals, class 1 accepted non-canonical literals (leading zero, upper-case hex, decimal, upper-case address, unknown extra member: the raw-fallback path), class 2 = forms the format description leaves open (JSON numbers, odd keys): consistency only). Each transaction is rendered in 3 JSON styles (key order, whitespace, \\u escapes) and each rendering goes JSON->tx->Bytes->NewTransaction x3, raw JSON -> NewTransaction, JSON export -> parse; canonical ones are also born from harness-built RLP bytes. Oracle: own ICON v3 serializer + sha3 for the id; the generator's own knowledge of every field; decred signature by the harness key (1 in 8 signed by a wrong key: must stay invalid). Then 3 one-step changes of a signed field per transaction: id differs iff the reference phrase differs. Non-trivial = distinct transaction (by reference phrase / JSON text) that has data or a non-canonical form, and distinct changed pair.", txPerCase),
+		Rule: fmt.Sprintf("each case = %d generated v3 transactions (all optional-field subsets; dataType absent/message/call/deploy/deposit/free-form; nested data with the escaped characters \\ { } [ ] . , control and non-ASCII characters, nulls, empty containers; class 0 canonical literals, class 1 accepted non-canonical literals (leading zero, upper-case hex, decimal, upper-case address, unknown extra member: the raw-fallback path), class 2 = forms the format description leaves open (JSON numbers, odd keys): consistency only). Each transaction is rendered in 3 JSON styles (key order, whitespace, \\u escapes) and each rendering goes JSON->tx->Bytes->NewTransaction x3, raw JSON -> NewTransaction, JSON export -> parse; canonical ones are also born from harness-built RLP bytes. Oracle: own ICON v3 serializer + sha3 for the id; the generator's own knowledge of every field; decred signature by the harness key (1 in 8 signed by a wrong key: must stay invalid). Then 3 one-step changes of a signed field per transaction: id differs iff the reference phrase differs. Concurrency phase (last cases): 16 goroutines at once, each parsing its own distinct signed canonical transactions from JSON in a loop (id against the reference every time; Verify and Bytes->NewTransaction->id every 8th time) - the identity oracle of the sequential phase under simultaneous use. Non-trivial = distinct transaction (by reference phrase / JSON text) that has data or a non-canonical form, and distinct changed pair.", txPerCase),
 		MinNonTrivial: func(t string) int {
 			if t == ev.Thorough {
 				return 600000
 			}
 			return 12000
 		},
-		Required: []string{"stage_json", "stage_binary_round", "stage_raw_json", "stage_json_export", "stage_binary_born", "verify_valid", "verify_invalid", "raw_fallback_reached", "stored_as_rlp", "change_id_differs", "change_same_phrase_same_id", "class_canonical", "class_noncanonical", "class_ambiguous", "style_variants_agree"},
+		Required: []string{"stage_json", "stage_binary_round", "stage_raw_json", "stage_json_export", "stage_binary_born", "verify_valid", "verify_invalid", "raw_fallback_reached", "stored_as_rlp", "change_id_differs", "change_same_phrase_same_id", "class_canonical", "class_noncanonical", "class_ambiguous", "style_variants_agree", "concurrent_parses", "concurrent_roundtrips", "concurrent_goroutine_runs"},
 		Assumptions: []string{
 			"the ICON v3 hash rule is: sha3-256 of 'icx_sendTransaction.' + sorted key.value walk, strings escaped at \\ { } [ ] . , null = \\0, {..} for objects, [..] for arrays, members signature and txHash left out (reference in lib/sig/icon.go, written from the format rules; /repo/doc has no text for the rule, the Java SDK serializer in /repo/sdk agrees with it)",
 			"JSON numbers, keys containing escaped/non-ASCII characters and the empty key are outside the reference (consistency checks only)",
@@ -116,6 +132,10 @@ func (t *txCase) withSig() *sig.Val {
 func run(c *ev.Ctx) {
 	log.GlobalLogger().SetLevel(log.FatalLevel)
 	c.Cases(func(ci int, r *rand.Rand) {
+		if ci >= seqCases(c.Tier) {
+			runConcurrent(c, r)
+			return
+		}
 		key := sig.NewKey(r)
 		wrong := sig.NewKey(r)
 		for n := 0; n < txPerCase && !c.Stopped(); n++ {
@@ -607,4 +627,75 @@ func change(c *ev.Ctx, r *rand.Rand, t *txCase, other *sig.Key) {
 	}
 	c.Count("change_id_differs", 1)
 	c.Count("changed_"+short, 1)
+}
+
+// runConcurrent: many goroutines parse / round-trip DIFFERENT ordinary
+// transactions at the same time. Each goroutine owns its inputs; whatever
+// goloop shares between calls must not leak from one transaction into another.
+func runConcurrent(c *ev.Ctx, r *rand.Rand) {
+	type one struct {
+		text  []byte
+		refID []byte
+		plain string
+	}
+	iters := c.Pick(2500, 6000)
+	sets := make([][]one, concGoroutines)
+	for g := range sets {
+		key := sig.NewKey(r)
+		for len(sets[g]) < concTxPerG {
+			tx, _ := genTx(r, key, 0)
+			if tx.Ambiguous() {
+				continue
+			}
+			id := sig.RefTxID(tx)
+			if !bytes.Equal(id, quirkTxID(tx)) {
+				continue // carries the known list defect: kept out of this phase
+			}
+			t := &txCase{tx: tx, refID: id, sigRSV: key.SignRSV(id)}
+			sets[g] = append(sets[g], one{[]byte(sig.Plain(t.withSig())), id, sig.Plain(tx)})
+		}
+	}
+	c.Note("concurrent phase: %d goroutines x %d iterations", concGoroutines, iters)
+	var wg sync.WaitGroup
+	start := make(chan struct{})
+	for g := 0; g < concGoroutines; g++ {
+		wg.Add(1)
+		go func(g int) {
+			defer wg.Done()
+			<-start
+			mine := sets[g]
+			for i := 0; i < iters && !c.Stopped(); i++ {
+				o := mine[i%len(mine)]
+				wit := func(what string) map[string]interface{} {
+					return map[string]interface{}{"what": what, "goroutine": g, "iteration": i, "goroutines": concGoroutines, "tx_json": string(o.text), "reference_id": hex.EncodeToString(o.refID)}
+				}
+				tx, err := transaction.NewTransactionFromJSON(o.text)
+				if err != nil {
+					c.Violation("concurrent.parse-fails", wit(err.Error()))
+					continue
+				}
+				if id := tx.ID(); !bytes.Equal(id, o.refID) {
+					c.Violation("concurrent.id-differs-from-reference", wit("id "+hex.EncodeToString(id)+" while other goroutines parse other transactions"))
+					continue
+				}
+				if i%8 == 0 {
+					if err := tx.Verify(); err != nil {
+						c.Violation("concurrent.verify-fails", wit(err.Error()))
+					}
+					tx2, err := transaction.NewTransaction(tx.Bytes())
+					if err != nil {
+						c.Violation("concurrent.stored-form-rejected", wit(err.Error()))
+					} else if !bytes.Equal(tx2.ID(), o.refID) {
+						c.Violation("concurrent.id-changes-after-reparse", wit("id "+hex.EncodeToString(tx2.ID())))
+					}
+					c.Count("concurrent_roundtrips", 1)
+				}
+			}
+			c.Count("concurrent_goroutine_runs", 1)
+		}(g)
+	}
+	close(start)
+	wg.Wait()
+	c.Eval(concGoroutines * iters)
+	c.Count("concurrent_parses", concGoroutines*iters)
 }
